@@ -56,7 +56,7 @@ CLAIMS = {
         tech="deductive verification: lemmas over function contracts, exhaustive zoom case split, SMT", ref="4 C09"),
     "C13": dict(
         text="ConvertTileXYZsToExtendedSpatialIDs is proved against an exact set-level specification: no error iff every tile is in range, the result is duplicate-free and contains exactly the IDs (hZoom,x,y,outV,z) with z in the covering range of C12 of some tile, nil on error; loop and map invariants are quantified over lists of any length.",
-        note=TRUST + "The spatial-ID variant (composition with the expansion) and the TileXYZ setters are covered by the sweep only.",
+        note=TRUST + "The spatial-ID variant is proved to fail exactly when the extended-ID conversion it calls fails and to return nothing on error; that its result is the expansion (C10) of those extended IDs is composition of two verified contracts, not a postcondition of its own. The TileXYZ setters are covered by the sweep only.",
         tech="deductive verification: WP VCs over go/ssa, heap model for tile objects, map model with struct keys, SMT", ref="4 C13"),
     "C16": dict(
         text="Inputs unmodified: every store site of the library is an F obligation discharged by provenance analysis (no store through a parameter). Order-blindness: every constant-index observation of a slice ordered by map iteration is a D obligation discharged by SMT from the callee contracts. Duplicate-freedom and set-determinism of Unique/Union/Difference/deleteDuplicationList and of the tile and neighbourhood conversions are postconditions proved with map iteration order universally quantified.",
